@@ -47,7 +47,7 @@ func checkRegistry(s *Sess, where string) bool {
 }
 
 func c16Keys(r *Rng, n int) []string {
-	special := []string{"R0", "R1", "R2", "X1", "X4", "X7", "N0", "N1", "N2", "N3", "N4", "N5",
+	special := []string{"R0", "R1", "R2", "X1", "X4", "X7", "N0", "N1", "N2", "N3", "N4", "N5", "N6", "N7", "N8",
 		"S0", "S1", "S2", "S3", "S4", "S5", "S6", "S7", "S8", "S9", "S10", "S11"}
 	Shuffle(r, special)
 	keys := []string{}
